@@ -315,7 +315,7 @@ def case_strategy(draw, max_ops, sweep=False):
         prog = prog[:pos] + extra + prog[pos:]
         rich = True
     else:
-        prog = draw(ops.program(ENABLED, min_size=4, max_size=max_ops, name_pool=["a", "b", "sig"]))
+        prog = draw(ops.program(ENABLED, min_size=max(4, max_ops // 2), max_size=max_ops, name_pool=["a", "b", "sig"]))
         rich = draw(st.booleans())
     prog = [dict(o, time=draw(TIMES)) if o["op"] == "force_ts" else o for o in prog]
     dts = draw(st.lists(st.sampled_from([0, 1, 1, 2, 3600, 1000000]), min_size=1, max_size=7))
